@@ -404,6 +404,12 @@ class Component( ComponentLevel7 ):
               parent._dsl.adjacency[other].remove( x )
           del parent._dsl.adjacency[x]
 
+      # The constants connected inside the removed components are keys of
+      # all_adjacency too; drop them together with their components.
+      for y in removed_consts:
+        if y in top._dsl.all_adjacency:
+          del top._dsl.all_adjacency[y]
+
       for x in removed_components:
         del x._dsl.parent_obj
         del x._dsl.elaborate_top
